@@ -15,7 +15,10 @@ ASSUMPTIONS = ["pixel agreement 1e-7 relative to (1+|value|), off-ray distance 1
 
 
 def units(tier):
-    return [(i, 2500) for i in range(8)] if tier == "quick" else [(i, 60000) for i in range(16)]
+    if tier == "quick":
+        return [(i, 2500) for i in range(8)]
+    # plain generation for the bulk, plus four small units in which Hypothesis hill-climbs on the residual/tolerance ratios
+    return [(i, 60000) for i in range(16)] + [("target-%d" % i, 2500) for i in range(4)]
 
 
 def strategy(tier, unit):
